@@ -381,7 +381,15 @@ impl<'a> Exec<'a> {
             self.viol("C15.panic", &site, m.clone());
         }
         if self.limits {
-            self.viol("C20.panic", &site, m);
+            self.viol("C20.panic", &site, m.clone());
+        }
+        if !self.tainted && !self.faults_in_play() {
+            // a well-formed file, a fault-free medium, calls inside the property's own
+            // quantifier: the call did not return what the property says it returns
+            let own = self.trace.property.clone();
+            if ["C01", "C02", "C03", "C04", "C05", "C06", "C08", "C10", "C16"].contains(&own.as_str()) {
+                self.viol(&format!("{}.panic", own), &site, m);
+            }
         }
         self.done = true;
     }
